@@ -122,6 +122,29 @@ Theorem C01_read_header_spec : forall raw t n c,
 Proof. exact thm_read_header_spec. Qed.
 Print Assumptions C01_read_header_spec.
 
+(* Which hash function: for every constructor option, pre-existing config file
+   and sequence of SetObjectFormat calls (the run-time switch a clone of a
+   SHA-256 remote performs), all fields the write paths read — the DotGit object
+   writer's format, the storage's ObjectHasher, the reader's option — hold the
+   repository's current format, so every write path names and stores the object
+   as git does in a repository of that format.  Same for the memory storage. *)
+Theorem C01_format_current : forall opt file ofs t chunks,
+  type_git t = true -> int64_size (blen (concat chunks)) = true ->
+  let c := concat chunks in let size := blen c in
+  let st := fs_run opt file ofs in let f := repo_format opt file ofs in
+  st_raw st t size chunks = good_write f t c /\
+  st_set st (m_fill t size chunks) = Some (good_write f t c) /\
+  st_set st (m_fill TBlob size [c]) = Some (good_write f TBlob c) /\
+  st_mem (ms_run opt ofs) (m_fill t size chunks) = mkR (Some (git_oid (hfmt_of (last_format ofs opt)) t c)) None None.
+Proof. exact thm_format_current. Qed.
+Print Assumptions C01_format_current.
+
+Theorem C01_format_fields : forall opt file ofs,
+  let st := fs_run opt file ofs in
+  fs_dir st = repo_format opt file ofs /\ fs_oh st = repo_format opt file ofs /\ fs_opts st = repo_format opt file ofs.
+Proof. exact fs_run_format. Qed.
+Print Assumptions C01_format_fields.
+
 (* MemoryObject.Hash of a freshly filled object is git's ID ... *)
 Theorem C01_memobj_fresh : forall f t chunks,
   snd (m_hash f (m_fill t (blen (concat chunks)) chunks)) = Some (git_oid f t (concat chunks)).
@@ -170,6 +193,21 @@ Example C01_ex_hello_sha256 :
   oid FSha256 TBlob [104;101;108;108;111;10]
   = unhex "2cf8d83d9ee29543b34a87727421fdecb7e3f3a183d337639025de576db9ebb4"%string.
 Proof. vm_compute. reflexivity. Qed.
+
+(* the clone path: default storage, then SetObjectFormat(sha256) *)
+Example C01_ex_switch : repo_format CUnset None [CSha256] = FSha256 /\ repo_format CSha256 (Some CUnset) [] = FSha1.
+Proof. split; reflexivity. Qed.
+
+(* non-vacuity of C01_format_current: a hasher that lags behind is observable *)
+Example C01_ex_lagging_hasher :
+  let st := mkFS CSha256 FSha256 FSha1 FSha256 in
+  match st_set st (m_fill TBlob 1 [[97]]) with
+  | Some r => r_err r = None /\
+              r_id r = Some (git_oid FSha1 TBlob [97]) /\
+              r_file r = Some (git_oid FSha256 TBlob [97], git_loose TBlob [97])
+  | None => False
+  end.
+Proof. exact lagging_hasher. Qed.
 
 (* the largest header: "ofs-delta 9223372036854775807\0" is 30 bytes *)
 Example C01_ex_longest : List.length (hdr TOfsDelta 9223372036854775807) = 30%nat.
